@@ -256,10 +256,18 @@ def check_special_cases(ctx):
                 num, den = (norm(x) for x in calls[0].args[1].elts)
                 ok = num == f"expression_from_sympy({p}.args[{1 - K}])" and den == f"expression_from_sympy({p}.args[{K}].args[0])"
                 detail = f"predicate finds the reciprocal at position {K}; consumer emits div({num}, {den}): numerator must be operand {1 - K} and denominator the base of operand {K}"
-            ctx.check(ok, R3, mul.key + ":div", f"div(operand {1 - K}, base of the reciprocal at operand {K})", detail, mul)
+            if detail.startswith("no div emission"):
+                # the emission is not written as FunctionCall("div", (num, den)) under `if predicate(node)`: the construct is not recognised,
+                # which is not a decided violation
+                ctx.undecided(R3, mul.key + ":div", "cannot find `FunctionCall('div', (numerator, denominator))` under `if is_multiplication_by_reciprocal(...)`", mul)
+            else:
+                ctx.check(ok, R3, mul.key + ":div", f"div(operand {1 - K}, base of the reciprocal at operand {K})", detail, mul)
             other = [c for c in body_walk(mul.node) if isinstance(c, ast.Call) and dotted(c.func) == "FunctionCall" and const_str(c.args[0]) == "mul"]
-            ok = len(other) == 1 and norm(other[0].args[1]) == f"expression_from_sympy({p}.args)"
-            ctx.check(ok, R3, mul.key + ":mul", "otherwise mul(all factors)", "the general product does not carry all factors of the sympy node", mul)
+            if len(other) != 1:
+                ctx.undecided(R3, mul.key + ":mul", "cannot find the single `FunctionCall('mul', ...)` emission", mul)
+            else:
+                ok = norm(other[0].args[1]) == f"expression_from_sympy({p}.args)"
+                ctx.check(ok, R3, mul.key + ":mul", "otherwise mul(all factors)", "the general product does not carry all factors of the sympy node", mul)
     # ---- x + (-y)
     pred = repo.func(f"{SE}:is_addition_of_negation")
     ctx.analysed(pred)
@@ -328,11 +336,18 @@ def check_special_cases(ctx):
         return None
 
     rec = emitted_in(found.get(-1.0))
-    ctx.check(rec == ("div", f"(1, expression_from_sympy({p}.args[0]))"), R3, pw.key + ":reciprocal", "x**-1 -> div(1, x)", f"exponent -1 is emitted as {rec}: must be div(1, base)", pw)
     half = emitted_in(found.get(0.5)) or emitted_in(found.get("sympy.Rational(1, 2)")) or emitted_in(found.get("sympy.S.Half"))
-    ctx.check(half == ("sqrt", f"(expression_from_sympy({p}.args[0]),)"), R3, pw.key + ":sqrt", "x**(1/2) -> sqrt(x)", f"exponent 1/2 is emitted as {half}: must be sqrt(base)", pw)
     gen = emitted_in(default)
-    ctx.check(gen == ("pow", f"expression_from_sympy({p}.args)"), R3, pw.key + ":general", "otherwise pow(base, exponent)", f"the general power is emitted as {gen}: must be pow over (base, exponent) in that order", pw)
+    for tag, got, want, okd, what in (
+        ("reciprocal", rec, ("div", f"(1, expression_from_sympy({p}.args[0]))"), "x**-1 -> div(1, x)", "exponent -1"),
+        ("sqrt", half, ("sqrt", f"(expression_from_sympy({p}.args[0]),)"), "x**(1/2) -> sqrt(x)", "exponent 1/2"),
+        ("general", gen, ("pow", f"expression_from_sympy({p}.args)"), "otherwise pow(base, exponent)", "the general power"),
+    ):
+        if got is None:
+            # no `if <node>.args[1] == <exponent>: return FunctionCall(...)` arm was recognised: construct lost, not a decided violation
+            ctx.undecided(R3, pw.key + ":" + tag, f"cannot find what is emitted for {what} (expected an `if {p}.args[1] == ...` chain of FunctionCall returns)", pw)
+        else:
+            ctx.check(got == want, R3, pw.key + ":" + tag, okd, f"{what} is emitted as {got}: must be {want[0]}{want[1]}", pw)
     extra = set(found) - {-1.0, 0.5, "sympy.Rational(1, 2)", "sympy.S.Half"}
     ctx.check(not extra, R3, pw.key + ":no-other-special-case", "no further exponent is special-cased", f"exponents {sorted(map(str, extra))} are special-cased too", pw)
 
